@@ -39,6 +39,11 @@ def slices(tier):
         Slice("math", [("z", ()), ("o", ()), F], MATH | {"mul", "add", "sub", "atan2"}, 2, fixed={"z": 0, "o": 1}),
         # zeros that carry free indices of different extents (0*u[i]*w[j]) under binding in either index order
         Slice("zeros-mixed", [U, ("w", (3,))], {"as_tensor", "index", "outer", "mul", "add"}, 2, idx=(10, 11), zerofi=[((10, 2), (11, 3))], maxdim=3, mikinds=("name",), tiny=True),
+        # atan2 of two literals (folded at construction)
+        Slice("atan2-lits", [F], {"atan2"}, 1, lits=[L["zero"], L["one"], L["two"], L["mone"]]),
+        # component tensors over an indexed list tensor whose items share a free index, bound in either axis order, then
+        # indexed by fixed indices (the ComponentTensor/ListTensor shortcut of Indexed)
+        Slice("list-ct", [U, V], {"index", "list", "as_tensor"}, 6, idx=(10, 11), levels=[{"index"}, {"index"}, {"list"}, {"index"}, {"as_tensor"}, {"index"}], mikinds=("name", "fixed"), chain=True, tiny=True),
         Slice("cond", [F, G], {"lt", "ge", "eq", "ne", "and", "or", "not", "cond", "max", "min", "sign"}, 2, lits=[L["zero"]]),
         Slice("cond3", [F, G], {"lt", "eq", "and", "not", "cond"}, 3),
         Slice("zeros", [F, U], {"mul", "add", "index", "as_tensor", "dot", "inner", "outer", "abs", "conj"}, 2, lits=[L["zero"]], zeros=[(2,), (2, 2)], idx=(10, 11), small=True),
